@@ -22,6 +22,8 @@ def run(ctx, mode):
             fh.write(json.dumps(rin) + "\n")
         env["VERIF_REPLAY_LINES"] = rl
     else:
+        # the reference layer itself against the RFC 5769 test vectors (independent of the library)
+        ctx.tlc_model("Rfc5769", "Rfc5769.cfg", workers=1, heap_gb=2, name="StunAuth/HMAC/MD5/CRC-32 reference vs RFC 5769 vectors")
         cfg = "AuthGen_quick.cfg" if ctx.quick() else "AuthGen_thorough.cfg"
         r = ctx.tlc_model("AuthGen", cfg, workers=vlib.NCPU, heap_gb=8, timeout=2400,
                           name="MAC/fingerprint shapes with StunAuth theorems (real HMAC-SHA1/CRC-32 in TLA+)")
